@@ -396,6 +396,11 @@ impl PrefixOpManager {
         let binding = self.store.lock().unwrap();
         binding.get(op).is_some()
     }
+
+    #[cfg(expression_engine_verif)]
+    pub fn verif_names(&self) -> Vec<String> {
+        self.store.lock().unwrap().keys().cloned().collect()
+    }
 }
 
 impl PostfixOpManager {
@@ -445,6 +450,11 @@ impl PostfixOpManager {
     pub fn exist(&self, op: &str) -> bool {
         let binding = self.store.lock().unwrap();
         binding.get(op).is_some()
+    }
+
+    #[cfg(expression_engine_verif)]
+    pub fn verif_names(&self) -> Vec<String> {
+        self.store.lock().unwrap().keys().cloned().collect()
     }
 }
 
